@@ -187,6 +187,18 @@ class Driver:
             self.p.kill()
 
 
+def lan_of(dev):
+    """the LAN object of a device, whatever the attribute is called"""
+    from msmart.lan import LAN
+    lan = getattr(dev, "_lan", None)
+    if isinstance(lan, LAN):
+        return lan
+    for v in vars(dev).values():
+        if isinstance(v, LAN):
+            return v
+    raise AttributeError("device object holds no LAN instance")
+
+
 def hx(b):
     b = bytes(b)
     return b.hex() if len(b) else "-"
